@@ -135,7 +135,7 @@ class Env:
         if self.sym:
             t = z3.BitVec(name, W)
             self.ctx.add(z3.And(t >= lo, t <= hi))
-            v = SymInt(t)
+            v = SymInt(t, (lo, hi))
         else:
             v = builtins.int(self._given(name))
             assert lo <= v <= hi
@@ -200,7 +200,7 @@ class Env:
             return 0
         t = z3.BitVec(name, W)
         self.ctx.add(z3.And(t >= 0, t < n))
-        self.vars[name] = SymInt(t)
+        self.vars[name] = SymInt(t, (0, n - 1))
         for k in range(n - 1):
             if self.ctx.branch(t == k):
                 return k
